@@ -36,6 +36,13 @@ type mutant struct {
 	Rule      string   `json:"rule"`
 	Construct string   `json:"construct_contains"`
 	Note      string   `json:"note,omitempty"`
+	Edits     []edit   `json:"edits,omitempty"` // further edits (same or other files), all must apply
+}
+
+type edit struct {
+	File    string `json:"file"`
+	Find    string `json:"find"`
+	Replace string `json:"replace"`
 }
 
 func main() {
@@ -102,13 +109,24 @@ func runWorker(prop, repo, ctx, overlay string) {
 			fmt.Fprintln(os.Stderr, err)
 			os.Exit(2)
 		}
-		path := filepath.Join(repo, m.File)
-		src, err := os.ReadFile(path)
-		if err != nil || !strings.Contains(string(src), m.Find) {
-			json.NewEncoder(os.Stdout).Encode(workerOut{Context: ctx, Failure: "inapplicable"})
-			return
+		ov = map[string][]byte{}
+		for _, e := range append([]edit{{m.File, m.Find, m.Replace}}, m.Edits...) {
+			path := filepath.Join(repo, e.File)
+			src, ok := ov[path]
+			if !ok {
+				var err error
+				src, err = os.ReadFile(path)
+				if err != nil {
+					json.NewEncoder(os.Stdout).Encode(workerOut{Context: ctx, Failure: "inapplicable"})
+					return
+				}
+			}
+			if !strings.Contains(string(src), e.Find) {
+				json.NewEncoder(os.Stdout).Encode(workerOut{Context: ctx, Failure: "inapplicable"})
+				return
+			}
+			ov[path] = []byte(strings.Replace(string(src), e.Find, e.Replace, 1))
 		}
-		ov = map[string][]byte{path: []byte(strings.Replace(string(src), m.Find, m.Replace, 1))}
 	}
 	out := analyse(prop, repo, ctx, ov)
 	json.NewEncoder(os.Stdout).Encode(out)
